@@ -51,7 +51,14 @@ class GridEval:
         self.types = types or {}        # parameter name -> type string (fixed-point newtypes are valued in their own units)
         self.resolve = resolve          # name of a local that was assigned before the walked region -> its defining term, or None
 
+    def atom(self, t):
+        """hook: a value for a term the rule gives a meaning to (None: evaluate structurally)"""
+        return None
+
     def ev(self, t):
+        a = self.atom(t)
+        if a is not None:
+            return a
         k = t[0]
         if k == "init":
             if t[1] in self.a:
